@@ -17,7 +17,24 @@ import (
 func init() { sections["ryu"] = ryuSection }
 
 func genFloatForRyu(r *tx.Rng) uint64 {
-	switch r.Intn(13) {
+	switch r.Intn(14) {
+	case 13: // digits on both sides of the decimal point: an integer part of k digits for every k (word-size limits 2^32,
+		// 10^9, 10^10 lie inside), a fraction of 1..6 digits
+		k := 1 + r.Intn(16)
+		lo, hi := uint64(1), uint64(10)
+		for i := 1; i < k; i++ {
+			lo, hi = lo*10, hi*10
+		}
+		ip := lo + r.U64()%(hi-lo)
+		if r.P(1, 4) {
+			ip = []uint64{1<<32 - 1, 1 << 32, 1<<32 + 1, 999999999, 1000000000, 9999999999, 10000000000, 1<<31 - 1, 1 << 31}[r.Intn(9)]
+		}
+		fd := 1 + r.Intn(6)
+		f, _ := strconv.ParseFloat(fmt.Sprintf("%d.%0*d", ip, fd, 1+r.Intn(999999)%pow10i(fd)), 64)
+		if r.Bool() {
+			f = -f
+		}
+		return math.Float64bits(f)
 	case 0:
 		return floatBits[r.Intn(len(floatBits))]
 	case 12: // large values whose exact expansion ends in ...25 / ...125 / ...75: the shortest text needs a round-half-even decision
@@ -94,4 +111,12 @@ func ryuSection(r *tx.Rng, w *tx.W, size int, opt map[string]string) {
 			w.Line("FD", fmt.Sprintf("%016x", b), tx.U64(m), tx.Int(int(e)), tx.Bool01(exact))
 		}
 	}
+}
+
+func pow10i(k int) int {
+	p := 1
+	for i := 0; i < k; i++ {
+		p *= 10
+	}
+	return p
 }
